@@ -7,6 +7,7 @@
 
 mod c12;
 mod c14;
+mod c15;
 mod c18;
 mod client_h;
 #[path = "../../common/ctx.rs"]
@@ -58,6 +59,16 @@ fn child(args: &[String]) {
                     std::process::exit(2)
                 });
             harness::run_child(bound, max_secs, move || c14::body(&spec));
+        }
+        "C15" => {
+            let spec = c15::catalogue(thorough)
+                .into_iter()
+                .find(|s| s.name == name)
+                .unwrap_or_else(|| {
+                    eprintln!("unknown harness {name}");
+                    std::process::exit(2)
+                });
+            harness::run_child(bound, max_secs, move || c15::body(&spec));
         }
         "C18" => {
             let spec = c18::catalogue(thorough)
@@ -237,6 +248,20 @@ fn main() {
                 samples,
                 "each harness = 2-3 threads of registry requests (read / write / call / register) on colliding pointers over the real registry.rs under loom (unbounded DPOR); per-thread results, callable invocations and final reads of every schedule must equal those of some sequential order on a plain JSON document + callable set",
                 &["sequentially consistent interleavings at RwLock granularity (loom)"],
+            )
+        }
+        "C15" => {
+            let specs = c15::catalogue(tier == Tier::Thorough);
+            let samples = specs.iter().take(3).map(|s| json!({"harness": s.name, "threads": format!("{:?}", s.threads)})).collect();
+            run_catalogue(
+                "C15",
+                tier,
+                specs.iter().map(|s| (s.name.clone(), s.bound)).collect(),
+                None,
+                "C15:registry:deadlock",
+                samples,
+                "registry clause under concurrency: each loom thread is one connection running the lifecycle with_peer_registry gives it (insert from the connect hook, alias from the embedder's connect hook, remove from the disconnect hook) on the real peer.rs; 2-3 overlapping lifecycles (old connection ending while successors take over its aliases), every interleaving for 2 lifecycles (unbounded DPOR), preemption bound 2 (quick) / 3 (thorough) for 3; in its own thread each connection checks that it and the aliases only it claims are present while connected and absent after its disconnect hook, and again after all hooks returned",
+                &["sequentially consistent interleavings at lock/atomic granularity (loom)", "that the hooks run (once, in this order) per connection is decided by the mc part"],
             )
         }
         "C18" => {
